@@ -42,6 +42,10 @@ CHECKS = {
             "Every ordered sequence of up to 5 (thorough 6) distinct points of the 4x4 lattice and every sequence with repetition of up to 6 points of the 3x3 lattice goes through quick_hull, graham_hull and ConvexHull for MultiPoint/LineString/Polygon, in f64 and i64; the ring must be closed, CCW, strictly convex, have exactly the exact hull's vertex set and contain every input by exact orientation; minimum_rotated_rect must contain all inputs and not exceed the bounding rect.",
             "Trusted: 20-line integer monotone chain. Order of the input matters for quick-hull's tie-breaking, hence sequences rather than sets. Rounding in the farthest-point search at large coordinates is covered by the ulp-window stage of C03.",
             "DESIGN.md §4 C08"),
+    "C09": ("E1-grid", "bounded exhaustive enumeration of vertex sequences x epsilon alphabet vs exact rational distance/area oracle",
+            "Every vertex sequence of length 0..6 (thorough 7) over the 3x3 lattice with repetition, as LineString and closed as Polygon ring (exterior and interior) and Multi* member, crossed with an epsilon alphabet straddling the attainable distances/areas, through simplify, simplify_idx, simplify_vw, simplify_vw_idx, simplify_vw_preserve: output is the subsequence named by the indices, keeps first and last, every dropped vertex is within epsilon of its replacing segment (exact rational), every kept interior VW vertex has triangle area > epsilon (exact), epsilon <= 0 is the identity, rings stay closed and RDP / VW-preserve keep >= 4 coordinates.",
+            "Trusted: exact rational point-segment distance and integer triangle areas. The harness builds geo with overflow checks on, so arithmetic wrap-around shows up as a panic.",
+            "DESIGN.md §4 C09"),
 }
 
 NOT_YET = "check not built yet in this round (planned: bounded exhaustive exploration, see DESIGN.md §4)"
